@@ -106,31 +106,28 @@ class BranchingList:
         """
         if m := re.match(f"(.*{Sign.CONDITION})([0-9]+)$", node.name):
             path_new = m.group(1)
+            # a case keyword indented less than an open branch, or equally but on another path, ends that branch
+            while self.state:
+                case_old = self.cases[self._get_case_id()]
+                if node.indent<case_old.indent or (node.indent==case_old.indent and path_new!=case_old.path):
+                    self._close_branch()
+                else:
+                    break
             path_old = ''
             if self.state:
                 id_old = self._get_case_id()
                 path_old = self.cases[id_old].path
             if node.case_type==Keyword.CASE:
                 pass
-            elif node.case_type==Keyword.ELSE and self.cases:
+            elif node.case_type==Keyword.ELSE and self.state and path_old==path_new:
                 pass
-            elif node.case_type==Keyword.END and self.cases and path_old==path_new:
+            elif node.case_type==Keyword.END and self.state and path_old==path_new:
                 self._close_branch()
                 return
             else:
                 raise Exception(f"Invalid condition:", node.code)
             case_id = fr"{Sign.CONDITION}{m.group(2)}"
             if path_new==path_old:  # same branch
-                branch_part = self._switch_case(case_id, node.case_type)
-            elif path_new<path_old: # lower branch
-                # close openned branches unitil the same branch is reached
-                while path_new!=path_old:
-                    self._close_branch()
-                    if self.state:
-                        id_old = self._get_case_id()
-                        path_old = self.cases[id_old].path
-                    else:
-                        path_old = ''
                 branch_part = self._switch_case(case_id, node.case_type)
             else:                   # new branch
                 branch_part = self._open_branch(case_id)
